@@ -61,8 +61,12 @@ def r1(ctx):
                         continue
                     at = Slicer(ctx.w, into_callees=2).atoms(b, t["d"])
                     if "field:" + STATE in at:
+                        # the state must have been sampled before it was overwritten: a test of `state` that is read after
+                        # `state = Closed` can never see SynReceived
+                        rb = field_read_blocks(ctx.w, b, t["d"], STATE)
+                        stale = bool(rb) and all(r_ != e.bb and r_ in after and e.bb not in b.reachable(r_) for r_ in rb)
                         # x must hang on one edge only
-                        if any(b.dominated_by_edge(x, (sbb, s2)) for s2 in b.succ(sbb)):
+                        if not stale and any(b.dominated_by_edge(x, (sbb, s2)) for s2 in b.succ(sbb)):
                             guarded = True
             ctx.inst(R, k, guarded, e.site, "Closed may be entered from SynReceived; the unowned child is reclaimed in the same function" if guarded else
                      f"`{b.id}` moves a socket to Closed while it may be a SynReceived child (owned by no handle and not yet on a ready "
